@@ -28,7 +28,7 @@ ASSUMPTIONS = [
 ]
 COMPONENTS = {"real": ["TradingEnv", "Transmitter", "Broker", "Exchange", "IState", "Feature", "FutureChain", "AbstractContract.now"],
               "harness": ["seeded call-level scheduler", "recording observers", "fault ops (clock write, PRNG draw)"], "stub": []}
-PROBE_FLOORS = {"two_chain_envs_different_leads": 8, "prefix_malformed_action": 34, "prefix_missing_price": 3, "prefix_ruin": 5,
+PROBE_FLOORS = {"folds_split_at_the_intraday_cutoff_of_a_roll_day": 5, "chain_environment_with_folds": 60, "two_chain_envs_different_leads": 8, "prefix_malformed_action": 34, "prefix_missing_price": 3, "prefix_ruin": 5,
                 "prefix_abandoned_at_step_0": 18, "clock_left_in_future_by_prefix": 82, "interleaved_envs_ge_2": 59,
                 "foreign_clock_write": 47, "foreign_prng_draw": 50, "prefix_on_other_fold": 6, "timesteps_without_events": 14, "prefix_observer_crash_fired": 23, "two_envs_sharing_the_default_reward_object": 4, "observer_crash_during_reset": 16, "observer_crash_during_step": 8}
 
@@ -73,6 +73,8 @@ def gen_plain_env(rng):
 
 def gen_chain_env(rng, force=None):
     from tesim.props import c11
+    if force is None and rng.random() < 0.3:
+        force = {"cls": "UN"}        # the user-defined future with an intraday cut-off
     for _ in range(5):
         sc = c11.generate(rng, 0, force=force)
         if not sc.get("construct_only"):
@@ -86,8 +88,23 @@ def gen_chain_env(rng, force=None):
     last = core.parse_t(env["grid"][-1])
     env["events"] = [e for e in env["events"] if core.parse_t(e["t"]) <= last]
     env["grid_input"] = list(range(len(env["grid"])))
-    return env, {"kind": "chain", "late": None, "shock": None, "fold": None, "actions": [op["action"] for op in steps[:keep]],
-                 "y0m0": sc["meta"].get("y0m0")}
+    meta = {"kind": "chain", "late": None, "shock": None, "fold": None, "actions": [op["action"] for op in steps[:keep]],
+            "y0m0": sc["meta"].get("y0m0")}
+    g = env["grid"]
+    if len(g) >= 5 and rng.random() < 0.5:
+        # two folds; the judged episodes run on the later one, earlier episodes possibly on the other: what a chain
+        # resolved to in an episode over other dates (or the other half of a roll day) is nothing the next one may see
+        cut = rng.randint(1, len(g) - 3)
+        if env["contracts"][0].get("cls") == "UN":
+            # preferably right at the cut-off of a roll day: one fold ends in its morning, the other starts in its afternoon
+            noon = [k for k in range(1, len(g) - 2) if g[k][:10] == g[k + 1][:10] and g[k][8:10] == "15" and g[k][11:13] < "12" <= g[k + 1][11:13]]
+            if noon and rng.random() < 0.7:
+                cut = rng.choice(noon)
+                env["cut_at_intraday_cutoff"] = True
+        env["folds"] = {"a": [g[0], g[cut]], "b": [g[cut + 1], g[-1]]}
+        meta["fold"] = "b"
+        meta["actions"] = meta["actions"][:len(g) - (cut + 1) - 1]
+    return env, meta
 
 
 def reference_actions(rng, env, meta):
@@ -414,6 +431,10 @@ def execute(scenario):
                     leads.append({r["chains"]["CH"]["lead"] for r in inter.sink.records if r.get("env") == tag and r.get("kind") == "EXEC" and r.get("chains")})
             if len(leads) >= 2 and leads[0] != leads[1]:
                 probe("two_chain_envs_different_leads")
+    if any(e.get("cut_at_intraday_cutoff") for e in scenario["envs"]):
+        probe("folds_split_at_the_intraday_cutoff_of_a_roll_day")
+    if any(e.get("folds") and e["contracts"][0].get("kind") == "chain" for e in scenario["envs"]):
+        probe("chain_environment_with_folds")
     if inter.faults.get("foreign_clock_write"):
         probe("foreign_clock_write")
     if inter.faults.get("foreign_prng_draw"):
